@@ -29,6 +29,15 @@ def run(rep, idx, tier):
     _g9.reset_discipline(rep, "C11.9", idx, ["csr/reg:Register", "csr/reg:Bridge"])
     from .c19 import shared_state
     shared_state(rep, idx, rule="C11.7", classes=["Register", "Field", "FieldActionMap", "FieldActionArray", "FieldAction"])
+    # an empty collection of fields is refused: every nesting level holds at least one field, so widths and offsets are those of fields
+    from .common import check_refusal, get_fn as _get_fn
+    for spec, text in (("FieldActionMap.__init__", "not isinstance(fields, dict) or len(fields) == 0"),
+                       ("FieldActionArray.__init__", "not isinstance(fields, list) or len(fields) == 0")):
+        try:
+            check_refusal(rep, "C11.5", _get_fn(idx, spec), f"{spec.split('.')[0]}: the collection is a non-empty {'dict' if 'Map' in spec else 'list'} (else TypeError)",
+                          text, "TypeError")
+        except Exception as e:
+            rep.unk("C11.5", "-", f"{spec}: non-empty collection", f"cannot decide: {type(e).__name__}: {e}")
     c = get_ctx(idx, "Register.elaborate")
     rep.analysed(c.fi.site)
     rep.count("drivers", len(c.t.drivers))
